@@ -110,6 +110,16 @@ def handle : List String → String
             | some h => showM (Gen.C06F.optimize_slicer a b c d e (liftH h))
             | none => "bad-op"
       | _, _, _, _, _ => "bad-op"
+  | ["gen", "optimize_read_slicers", a, b, c, heur] =>
+      match parseVL? a, parseVL? b, parseV? c with
+      | some a, some b, some c =>
+          if heur = "src" then
+            showM (Gen.C06F.optimize_read_slicers a b c
+              (fun x y z => Gen.C06F.threshold_heuristic x y z Gen.C06F.SKIP_THRESH))
+          else match parseHeur? heur with
+            | some h => showM (Gen.C06F.optimize_read_slicers a b c (liftH h))
+            | none => "bad-op"
+      | _, _, _ => "bad-op"
   | _ => "bad-op"
 
 end Nb.Drv.C06
